@@ -377,16 +377,15 @@ func genNumber(r *hc.RNG) (digits string, val uint64) {
 	return
 }
 
-type cmp struct{ line, impl string }
 
 func run(c *hc.Ctx) error {
 	r := c.Rng
-	var cs []cmp
-	add := func(line, impl string) { cs = append(cs, cmp{line, impl}) }
+	bt := c.NewBatcher()
+	add := bt.Add
 	parsed := func(e *tgerr.Error) string { return hc.Hex([]byte(e.Type)) + " " + strconv.Itoa(e.Argument) }
 
 	// ---- 1. the specification's messages: words + one numeric argument at any position
-	n := c.N(100000, 1500000)
+	n := c.N(100000, 1000000)
 	for i := 0; i < n; i++ {
 		cnt := hc.Pick(r, 1, 1, 2, 2, 2, 3, 3, 4, 5, r.Range(1, 8))
 		words := make([]string, cnt)
@@ -477,7 +476,7 @@ func run(c *hc.Ctx) error {
 	}
 
 	// ---- 3. other shapes: no argument, several numbers, empty parts, overflow, arbitrary strings
-	m := c.N(100000, 1500000)
+	m := c.N(100000, 1000000)
 	for i := 0; i < m; i++ {
 		var msg string
 		switch r.Intn(8) {
@@ -556,19 +555,6 @@ func run(c *hc.Ctx) error {
 
 	c.Res.Rule = "specification messages = 1..8 upper-case words (vocabulary of real error words incl. words with digits such as 2FA, MD5, B2B; or random letter/digit words containing a letter) joined by '_' with one decimal number (0..2^63−1, boundaries of int32/int64/Duration, 15% with leading zeros) inserted at a random position (all non-trivial); 25% are the two flood-wait types; other shapes: no number, several numbers, empty parts, numbers beyond int64, random bytes, non-ASCII digits (non-trivial unless empty). FloodWait is run with a recording clock (exact duration) and with a travelling neo clock (not before (arg+1)s−1ns, done at (arg+1)s) and a cancelled context. distinct = distinct request line"
 
-	lines := make([]string, len(cs))
-	for i, x := range cs {
-		lines[i] = x.line
-	}
-	outs, err := c.Drv.Batch(lines)
-	if err != nil {
-		return err
-	}
-	for i, o := range outs {
-		if c.Compare(cs[i].line, cs[i].impl, o) {
-			c.Res.TracesValidated++
-		}
-	}
 	c.PartialNote("FloodWait's select between timer and ctx.Done is modelled as an input (which is ready first); real-time behaviour of clock.System is not exercised")
-	return nil
+	return bt.Done()
 }
